@@ -92,6 +92,10 @@ REFUSALS = {
     'add_directory:rr-name-of-a-file': ('rr', 'add_directory', [], dict(iso_path='/DIR2', rr_name='foo')),
     'add_symlink:rr-name-duplicate': ('rr', 'add_symlink', [], dict(symlink_path='/SYM.;1', rr_symlink_name='foo', rr_path='dir1')),
     'add_hard_link:rr-name-duplicate': ('rr', 'add_hard_link', [], dict(iso_old_path='/FOO.;1', iso_new_path='/LNK.;1', rr_name='foo')),
+    # Rock Ridge entries that need more than one continuation block (K73: accepted, the next write failed)
+    'add_fp:rr-name-beyond-one-continuation-block': ('rr', 'add_fp', ['FILE', 4], dict(iso_path='/BAR.;1', rr_name='x' * 2500)),
+    'add_directory:rr-name-beyond-one-continuation-block': ('rr', 'add_directory', [], dict(iso_path='/DIR2', rr_name='x' * 2500)),
+    'add_symlink:target-beyond-one-continuation-block': ('rr', 'add_symlink', [], dict(symlink_path='/SYM.;1', rr_symlink_name='sym', rr_path='/'.join(['ab'] * 700))),
     # a file mode outside 32 bits (K71: accepted, the next write failed)
     'add_fp:file-mode-too-big': ('rr', 'add_fp', ['FILE', 4], dict(iso_path='/BAR.;1', rr_name='bar', file_mode=1 << 32)),
     'add_fp:file-mode-negative': ('rr', 'add_fp', ['FILE', 4], dict(iso_path='/BAR.;1', rr_name='bar', file_mode=-1)),
